@@ -364,6 +364,9 @@ func checkC08(c *Ctx, r *Report) {
 			})
 		}
 		r.Check(got["Path"] == "URL.Path" && got["RawQuery"] == "URL.RawQuery", "C08.R4", "target URL carries path and query", c.Pos(f.Pos()), fmt.Sprintf("Path<-%s RawQuery<-%s", got["Path"], got["RawQuery"]), fmt.Sprintf("the outgoing URL does not take Path/RawQuery from the incoming one (Path<-%q RawQuery<-%q)", got["Path"], got["RawQuery"]))
+		// url.URL renders Path through its own escaping unless RawPath holds the original spelling, and drops a
+		// bare "?" unless ForceQuery is set: both must be carried over for the origin to see the request-target as sent
+		r.Check(got["RawPath"] == "URL.RawPath" && got["ForceQuery"] == "URL.ForceQuery", "C08.R4", "target URL keeps the original spelling of the path (RawPath, ForceQuery)", c.Pos(f.Pos()), "RawPath<-URL.RawPath ForceQuery<-URL.ForceQuery", fmt.Sprintf("the outgoing URL is rebuilt from the decoded path only (RawPath<-%q ForceQuery<-%q): the origin receives /a/b for /a%%2Fb, /g++ for /g%%2B%%2B and /list for /list?", got["RawPath"], got["ForceQuery"]))
 	}
 	nReqStores := 0
 	for _, f := range li.Fns {
